@@ -125,7 +125,7 @@ pub fn run_driver(cfg: &Cfg, ops: &[Op], mode: Mode, extra: &[(&str, String)]) -
             let f: Vec<&str> = line.split_whitespace().collect();
             match f.as_slice() {
                 ["init", c] => init_counter = c.parse().unwrap_or(0),
-                ["ack", i, c, r] => acks.push((i.parse().unwrap_or(0), c.parse().unwrap_or(0), *r == "ok")),
+                ["ack", i, c, r, ..] => acks.push((i.parse().unwrap_or(0), c.parse().unwrap_or(0), *r == "ok")),
                 ["dropped", c] => dropped_counter = c.parse().ok(),
                 _ => {}
             }
